@@ -26,8 +26,20 @@ let next_state st =
   let meta = next_list st (fun st -> n_of_int (next_int st)) in
   let mods = next_list st (fun st -> let n = next_str st in let k = parse_kind (next st) in (n, k)) in
   let attrs = List.filter_map (fun (k, v) -> if v = "A" then None else Some (k, parse_val v)) keys in
-  (List.map fst keys, { attrs = attrs; cwd = cwd; vcwd = cwd; path = path; meta = meta; mods = mods })
+  (List.map fst keys, { attrs = attrs; cwd = cwd; vcwd = cwd; path = path; meta = meta; mods = mods; heap = [] })
 
+(* s0 = the state the case started from: the last section lists, per key, the content stamp of the
+   object that key held INITIALLY ("-" when it held nothing or None) *)
+let print_state_c s0 keys s =
+  String.concat " " (List.map (fun k -> print_opt (get k s)) keys)
+  ^ " | " ^ cl_hex s.cwd
+  ^ " | " ^ String.concat " " (List.map cl_hex s.path)
+  ^ " | " ^ String.concat " " (List.map (fun n -> string_of_int (int_of_n n)) s.meta)
+  ^ " | " ^ String.concat " " (List.sort compare (List.map (fun (n, k) -> cl_hex n ^ ":" ^ print_kind k) s.mods))
+  ^ " | " ^ String.concat " " (List.map (fun k ->
+      match get k s0 with
+      | None | Some VNone -> "-"
+      | o -> string_of_int (int_of_n (content o s))) keys)
 let print_state keys s =
   String.concat " " (List.map (fun k -> print_opt (get k s)) keys)
   ^ " | " ^ cl_hex s.cwd
@@ -49,6 +61,7 @@ let next_op st =
   | "I" -> let n = next_str st in let k = parse_kind (next st) in OModIns (n, k)
   | "R" -> OModDel (next_str st)
   | "S" -> OPathIns (next_str st)
+  | "M" -> let k = next_key st in let c = n_of_int (next_int st) in OMutate (k, c)
   | t -> failwith ("bad op " ^ t)
 let next_ending st =
   match next st with
@@ -69,7 +82,7 @@ let run_patch_ops st =
      | "b" ->
        let slot = next_int st in let (m, a) = next_key st in let byname = next_bool st in
        let v = parse_val (next st) in
-       let (s1, t) = begin_patch { p_mod = m; p_attr = a; p_byname = byname } v !s in
+       let (s1, t) = begin_patch { p_mod = m; p_attr = a; p_byname = byname; p_new = NFresh } v !s in
        s := s1; Hashtbl.replace slots slot t;
        Buffer.add_char flags (match t with None -> '0' | Some _ -> '.')
      | "e" ->
@@ -81,7 +94,7 @@ let run_patch_ops st =
      | "p" ->
        let slot = next_int st in
        let ps = next_list st (fun st -> let (m, a) = next_key st in let byname = next_bool st in
-                               { p_mod = m; p_attr = a; p_byname = byname }) in
+                               { p_mod = m; p_attr = a; p_byname = byname; p_new = NFresh }) in
        let base = n_of_int (next_int st) in
        let (s1, ts) = patch_enter ps base !s in
        s := s1; Hashtbl.replace pslots slot ts; Buffer.add_char flags '.'
@@ -114,14 +127,14 @@ let handle line =
     let p = next_prog st in
     (match analyse root hook cy early p s with
      | Dead -> "DEAD"
-     | Alive s' -> "ALIVE " ^ print_state keys s')
+     | Alive s' -> "ALIVE " ^ print_state_c s keys s')
   | "Y" ->
     let src = next_str st in
     let (keys, s) = next_state st in
     let p = next_prog st in
     (match analyse_pyproject src p s with
      | Dead -> "DEAD"
-     | Alive s' -> "ALIVE " ^ print_state keys s')
+     | Alive s' -> "ALIVE " ^ print_state_c s keys s')
   | "L" ->
     let (keys, s) = next_state st in
     print_state keys (interleaved_outer s)
